@@ -118,299 +118,34 @@ def _callee_summary(call, summaries):
 
 
 def check(repo, res, tier):
-    res.rule("R-ALIAS", "the integrator's .y buffer never escapes uncopied into a return value or the solution list")
-    res.rule("R-ROWS", "origin first iff includeOrigin; exactly one append per element of t on every path; row k from stepping to t[k]; result np.array(list)")
-    res.rule("R-GRID", "t0 is prepended to the requested grid; _integrate/_integrate2 hand the grid on unchanged (t[0], t[1:], includeOrigin=True)")
-    res.rule("R-PAIRFJ", "func/jac passed to integrateFuncJac/odeint belong together and have the argument order the callee uses")
+    res.rule("R-ROWS", "integrateFuncJac, interpreted against a model of scipy.integrate.ode whose integrate() advances exactly along the test problem y' = c and reuses "
+             "its state buffer, returns ([x0] if includeOrigin) + [x0 + c (t_k - t0)] for every grid form, method, full_output and eigenvalue schedule; integrators are "
+             "set up with names scipy knows, the caller's functions, tolerances and step budget; a failed step raises")
+    res.rule("R-GRID", "integrate(t) / integrate2(t, method), interpreted down to the library boundary, return the initial state followed by the solution at each requested time, "
+             "and hand the library integrators functions with the argument order the library uses")
+    res.rule("R-PAIRFJ", "func/jac passed to integrateFuncJac belong together (same object, matching names) and are time-first")
     res.rule("R-FWD", "time-first wrappers forward each argument to the same-named parameter of the base method")
-    res.rule("R-TABLE", "integrator names chosen are handled; set-up chain maps names to the intended scipy integrators, with tolerances and initial value")
     res.rule("R-SHAPE", "matrix-valued evaluators are registered as matrices")
-    res.s_clauses = ["S1 R-ALIAS", "S2 R-ROWS", "S3 R-GRID", "S4 R-PAIRFJ/R-FWD", "S5 R-TABLE", "S6 R-SHAPE(jacobian)"]
-    res.n_clauses = ["each row equals the true ODE solution to solver tolerance (accuracy of scipy's integrators)",
+    res.s_clauses = ["S1/S2/S5 R-ROWS (rows, buffer aliasing, integrator table)", "S3 R-GRID", "S4 R-PAIRFJ/R-FWD", "S6 R-SHAPE(jacobian)"]
+    res.n_clauses = ["each row equals the true ODE solution to solver tolerance (accuracy of scipy's integrators; the model integrator is exact by construction)",
                      "quality of the eigenvalue heuristic that picks the integrator"]
-    mod = repo.module(M.M_UTILS)
-    ifj = repo.func(M.M_UTILS, "integrateFuncJac")
-    ios = repo.func(M.M_UTILS, "_integrateOneStep")
-    setup = repo.func(M.M_UTILS, "_setupIntegrator")
-    choose = repo.func(M.M_UTILS, "_determineIntegratorGivenEigenValue")
     integ = repo.func(M.M_UTILS, "integrate")
-
-    # ---------------------------------------------------------------- R-ALIAS
-    typed = integrator_names(repo, mod)
-    summaries = {}     # function name -> set of tuple slots / 'whole' that may alias the buffer
-    n_reads = 0
-    order = [f for f in mod.functions.values()]
-    for _round in range(3):
-        for f in order:
-            inames = typed.get(f.name, set())
-            cfg, df = cfg_of(f), dataflow_of(f)
-            s = set()
-            for n in C.returns_of(f):
-                v = n.ast.value
-                if v is None:
-                    continue
-                if isinstance(v, ast.Tuple):
-                    for i, el in enumerate(v.elts):
-                        if may_alias(el, df, n, inames, summaries):
-                            s.add(i)
-                elif may_alias(v, df, n, inames, summaries):
-                    s.add("whole")
-                    s.add(0)
-            if s:
-                summaries[f.name] = s
-    for f in order:
-        inames = typed.get(f.name, set())
-        cfg, df = cfg_of(f), dataflow_of(f)
-        for n in cfg.stmt_nodes():
-            for e in df.node_exprs(n):
-                for x in walk_no_nested(e):
-                    if isinstance(x, ast.Attribute) and x.attr == "y" and isinstance(x.value, ast.Name) and x.value.id in inames:
-                        n_reads += 1
-        if not inames and f.name not in ("integrateFuncJac",):
-            continue
-        res.functions.add(f.construct)
-        for n in C.returns_of(f):
-            v = n.ast.value
-            if v is None:
-                continue
-            for i, el in enumerate(C.tuple_elts(v)):
-                al = may_alias(el, df, n, inames, summaries)
-                tag = "return[%d]@%s" % (i, norm(el)[:40])
-                if al:
-                    res.violated("R-ALIAS", f, tag,
-                                 "returns %s, the integrator's internal state buffer (or a view of it), without copying: the next "
-                                 "integrate() call overwrites it, so every row collected by the caller ends up equal to the last state"
-                                 % norm(el), node=n.ast)
-                elif inames:
-                    res.holds("R-ALIAS", f, tag, "returned value is not the integrator buffer", node=n.ast)
-        # containers that outlive the step
-        for d in df.defs:
-            if d.kind == "append":
-                al = may_alias(d.value, df, d.node, inames, summaries)
-                tag = "append(%s)@%s" % (d.name, norm(d.value)[:40])
-                if al:
-                    res.violated("R-ALIAS", f, tag,
-                                 "%s.append(%s) stores the integrator's state buffer (or a view) in a list that outlives the step; "
-                                 "later steps overwrite the stored rows" % (d.name, norm(d.value)), node=d.stmt)
-                elif inames or f.name == "integrateFuncJac":
-                    res.holds("R-ALIAS", f, tag, "appended value is not the integrator buffer", node=d.stmt)
-    res.floor(".y reads of integrator objects", n_reads, 5)
-
-    # ----------------------------------------------------------------- R-ROWS
-    _check_rows(res, ifj, ios)
-
-    # ----------------------------------------------------------------- R-GRID
-    _check_grid(repo, res)
+    from ..rules import integx as IX
+    from ..core import absint as _ai
+    _ai.INLINED.clear()
+    n = IX.check_rows(repo, res)
+    res.floor("row-assembly cases interpreted", n, 140)
+    n2 = IX.check_entrypoints(repo, res)
+    res.floor("entry-point cases interpreted", n2, 36)
+    res.functions |= set(_ai.INLINED)
 
     # -------------------------------------------------------- R-PAIRFJ / R-FWD
     _check_pairs(repo, res, integ)
-
-    # ---------------------------------------------------------------- R-TABLE
-    _check_table(res, ifj, setup, choose)
 
     from ..rules.sweep import gate_call_arity
     gate_call_arity(repo, res, {"pygom/model/ode_utils/__init__.py", "pygom/model/deterministic.py"})
     # ---------------------------------------------------------------- R-SHAPE
     check_shapes(repo, res, {"jacobian"}, {"jacobian": "integrateFuncJac(full_output=True), always used by integrate2, applies np.linalg.eig to it"})
-
-
-# --------------------------------------------------------------------------- rows
-def _check_rows(res, ifj, ios):
-    """integrateFuncJac interpreted with the stepper replaced by a recorder: the rows returned must be
-    ([x0] if includeOrigin) + [state after stepping to t_k for each k, in order], whatever container is used"""
-    from ..core.absint import Abs, Obj, Tok, AList, Raised
-    from ..core.symarr import SymArr, np_summaries
-    from ..core import algebra as A
-    params = ifj.params
-    for need in ("t", "x0", "includeOrigin", "full_output"):
-        if need not in params:
-            raise AnalysisError("integrateFuncJac lost its parameter %s" % need)
-    n_cases = 0
-    for tform, tval, times in (("list", [1.0, 2.0, 3.5], [1.0, 2.0, 3.5]), ("tuple", (1.0, 2.0, 3.5), [1.0, 2.0, 3.5]), ("scalar", 2.0, [2.0]),
-                               ("one-element", [4.0], [4.0])):
-        for inc in (False, True):
-            for full in (False, True):
-                for method in (None, "vode"):
-                    n_cases += 1
-                    x0 = SymArr.symbols("x0", (2,))
-                    rec = {"steps": [], "setup": []}
-
-                    def step(r, t, func, jac, args=(), full_output=False, _rec=rec):
-                        _rec["steps"].append(t)
-                        row = SymArr.symbols("y@%s" % t, (2,))
-                        return (row, True, Tok("e"), Tok("mx"), Tok("mn")) if full_output else row
-
-                    def setup(func, jac, x0_, t0_, args=(), method_=None, nsteps=10000, _rec=rec):
-                        _rec["setup"].append((x0_, t0_, method_))
-                        return Obj("integrator")
-                    summ = np_summaries()
-                    arr = summ["np.array"]
-
-                    def np_array(a, *aa, **kk):
-                        try:
-                            return arr(a)
-                        except A.Undecided:
-                            return list(a) if isinstance(a, (list, tuple)) else a
-                    summ.update({"_integrateOneStep": step, "_setupIntegrator": setup, "np.array": np_array,
-                                 "_determineIntegratorGivenEigenValue": lambda e: "lsoda", "np.linalg.eig": lambda m: (Tok("eig"), Tok("vec")),
-                                 "is_list_like": lambda v: isinstance(v, (list, tuple)) or getattr(v, "_abs_native", False),
-                                 "InputError": lambda *a: Tok("err")})
-                    types = {"Number": lambda v: isinstance(v, (int, float)) and not isinstance(v, bool)}
-                    env = {"func": ("py", lambda *a: Tok("f")), "jac": ("py", lambda *a: Tok("J"))}
-                    ab = Abs({}, types, summ, None)
-                    tag = "rows(t=%s,includeOrigin=%s,full_output=%s,method=%s)" % (tform, inc, full, method)
-                    try:
-                        kind, out = ab.run_function(ifj.node, dict(env, x0=x0, t0=0.0, t=tval, includeOrigin=inc, full_output=full, method=method))
-                    except A.Undecided as e:
-                        res.undecided("R-ROWS", ifj, tag, "outside the modelled subset: %s" % e)
-                        continue
-                    if kind != "return":
-                        res.violated("R-ROWS", ifj, tag, "integrateFuncJac raises %s" % (out,), node=ifj.node)
-                        continue
-                    sol = out[0] if (full and isinstance(out, tuple)) else out
-                    want_rows = ([x0] if inc else []) + [SymArr.symbols("y@%s" % t_, (2,)) for t_ in times]
-                    want = SymArr.of([r_.tolist() for r_ in want_rows])
-                    problems = []
-                    if rec["steps"] != times:
-                        problems.append("the integrator is stepped to %s, requested times are %s" % (rec["steps"], times))
-                    if not isinstance(sol, SymArr):
-                        problems.append("the solution returned is %r, not an array of rows" % (sol,))
-                    elif sol.shape != want.shape or not sol.same(want):
-                        problems.append("returned rows %s, expected %s" % (sol.tolist(), "x0 followed by " if inc else "" + "the state after each requested time in order"))
-                    if full and not (isinstance(out, tuple) and len(out) == 2 and isinstance(out[1], dict)):
-                        problems.append("full_output does not return (solution, info dict)")
-                    if not rec["setup"] or not (isinstance(rec["setup"][0][0], SymArr) and rec["setup"][0][0].same(x0) and rec["setup"][0][1] == 0.0):
-                        problems.append("the integrator is not started from (x0, t0)")
-                    res.check(not problems, "R-ROWS", ifj, tag, "rows = %sstate at each requested time, in order" % ("x0, " if inc else ""),
-                              "; ".join(problems), node=ifj.node)
-    res.floor("row-assembly cases interpreted", n_cases, 32)
-    # R-DTYPE: a pre-allocated solution container must not take its dtype from the initial state
-    cfg, df = cfg_of(ifj), dataflow_of(ifj)
-    for n, c, callee in C.calls(ifj):
-        last = callee.split(".")[-1]
-        uses_x0 = any(isinstance(x, ast.Name) and x.id == "x0" for a in list(c.args) + [k.value for k in c.keywords] for x in ast.walk(a))
-        dt = kwarg(c, "dtype")
-        if last in ("empty_like", "zeros_like", "full_like", "ones_like") and c.args and norm(c.args[0]) == "x0" and (dt is None or "x0" in norm(dt)):
-            res.violated("R-ROWS", ifj, "container-dtype@%s" % norm(c)[:40],
-                         "%s allocates the solution with the dtype of the initial state: with an integer x0 every row is truncated to whole numbers" % norm(c), node=c)
-        elif last in ("empty", "zeros", "array", "full") and dt is not None and "x0" in norm(dt):
-            res.violated("R-ROWS", ifj, "container-dtype@%s" % norm(c)[:40], "%s takes its dtype from the initial state" % norm(c), node=c)
-    # _integrateOneStep: integrate(t) precedes every read of r.y; only successful steps return a state
-    cfg2, df2 = cfg_of(ios), dataflow_of(ios)
-    ip = ios.params
-    r_p, t_p = ip[0], ip[1]
-    integ_nodes = [n for n, c, callee in C.calls(ios) if callee == "%s.integrate" % r_p
-                   and c.args and isinstance(c.args[0], ast.Name) and c.args[0].id == t_p]
-    rets = C.returns_of(ios)
-    res.check(bool(integ_nodes) and all(any(cfg2.dominates(i, r) for i in integ_nodes) for r in rets),
-              "R-ROWS", ios, "step-to-t", "r.integrate(t) with the requested time precedes every return",
-              "_integrateOneStep does not call %s.integrate(%s) before returning the state" % (r_p, t_p), node=ios.node)
-    ok_s = True
-    for r in rets:
-        gs = C.if_guards(cfg2, r)
-        if not any("successful" in norm(t.ast.test) and o is True for t, o in gs):
-            ok_s = False
-    res.check(ok_s and bool(rets), "R-ROWS", ios, "only-successful-steps", "a state is returned only when the integrator reports success",
-              "a state is returned although the integrator did not report success", node=ios.node)
-    # the state returned is the integrator's state (slot 0)
-    for r in rets:
-        el = C.tuple_elts(r.ast.value)[0]
-        src = df2.expand(el, r)
-        ok = any(isinstance(x, ast.Attribute) and x.attr == "y" and isinstance(x.value, ast.Name) and x.value.id == r_p for x in ast.walk(src))
-        res.check(ok, "R-ROWS", ios, "returns-integrator-state@%s" % norm(el)[:30], "the first value returned is the integrator's state",
-                  "`%s` is returned as the state, which is not %s.y" % (norm(el), r_p), node=r.ast)
-
-
-def _is_array_call(v):
-    return isinstance(v, ast.Call) and dotted(v.func) in ("np.array", "numpy.array", "np.asarray")
-
-
-# --------------------------------------------------------------------------- grid
-def _check_grid(repo, res):
-    sit = repo.func(M.M_DET, "DeterministicOde._setIntegrateTime")
-    cfg, df = cfg_of(sit), dataflow_of(sit)
-    stores = [n for n in cfg.stmt_nodes() if n.kind == "stmt" and isinstance(n.ast, ast.Assign)
-              and any(is_self_attr(t, "_odeTime") for t in n.ast.targets)]
-    if not stores:
-        res.violated("R-GRID", sit, "stores-grid", "self._odeTime is never assigned")
-    n_forms = 0
-    for s in stores:
-        v = s.ast.value
-        defs = df.strong_defs(s, v.id) if isinstance(v, ast.Name) else []
-        vals = [(d.value, d) for d in defs] if defs else [(v, None)]
-        for val, d in vals:
-            n_forms += 1
-            ok, why = _prepends_t0(val)
-            if d is not None and d.kind == "param":
-                ok, why = False, "a path stores the requested grid without the initial time"
-            res.check(ok, "R-GRID", sit, "prepend-t0@%s" % norm(val)[:50], why, why + ": the output rows are shifted against the requested times",
-                      node=d.stmt if d is not None and d.stmt is not None else s.ast)
-    res.floor("accepted grid forms in _setIntegrateTime", n_forms, 2)
-    # integrate -> _integrate(self._odeTime), integrate2 -> _integrate2(self._odeTime,...)
-    for name, inner in (("integrate", "_integrate"), ("integrate2", "_integrate2")):
-        f = repo.func(M.M_DET, "DeterministicOde." + name)
-        cs = C.calls_to(f, "self." + inner)
-        set_calls = C.calls_to(f, "self._setIntegrateTime")
-        cfgf = cfg_of(f)
-        ok = len(cs) >= 1 and all(c.args and is_self_attr(c.args[0], "_odeTime") for _, c, _ in cs) and bool(set_calls) \
-            and all(any(cfgf.dominates(sn, n) for sn, _, _ in set_calls) for n, _, _ in cs) \
-            and all(sc.args and isinstance(sc.args[0], ast.Name) and sc.args[0].id == f.params[1] for _, sc, _ in set_calls)
-        res.check(ok, "R-GRID", f, "hands-full-grid", "%s builds the grid from its argument and passes self._odeTime to %s" % (name, inner),
-                  "%s does not pass the grid built by _setIntegrateTime(t) to %s" % (name, inner), node=f.node)
-    i1 = repo.func(M.M_DET, "DeterministicOde._integrate")
-    cs = C.calls_to(i1, ("ode_utils.integrate", "integrate"))
-    cs = [(n, c, d) for n, c, d in cs if d.endswith("ode_utils.integrate") or d == "integrate"]
-    integ = repo.func(M.M_UTILS, "integrate")
-    ok = False
-    why = "no call of ode_utils.integrate"
-    for n, c, d in cs:
-        b = C.bind_args(c, integ.params)
-        ok = isinstance(b.get("t"), ast.Name) and b["t"].id == i1.params[1] and is_self_attr(b.get("x0"), "_x0") \
-            and isinstance(b.get("ode"), ast.Name) and b["ode"].id == "self"
-        why = "odeint wrapper receives (self, self._x0, t)" if ok else "odeint wrapper receives ode=%s x0=%s t=%s" % (
-            norm(b.get("ode")), norm(b.get("x0")), norm(b.get("t")))
-    res.check(ok, "R-GRID", i1, "odeint-args", why, why, node=i1.node)
-    i2 = repo.func(M.M_DET, "DeterministicOde._integrate2")
-    ifj = repo.func(M.M_UTILS, "integrateFuncJac")
-    cs = C.calls_to(i2, "integrateFuncJac")
-    ok, why = False, "no call of integrateFuncJac"
-    for n, c, d in cs:
-        b = C.bind_args(c, ifj.params)
-        tp = i2.params[1]
-        t0, tt = b.get("t0"), b.get("t")
-        t0_ok = isinstance(t0, ast.Subscript) and norm(t0.value) == tp and const_value(t0.slice) == 0
-        tt_ok = isinstance(tt, ast.Subscript) and norm(tt.value) == tp and C.slice_parts(tt.slice) in (("1", None, None), ("1", None, "1"))
-        io = b.get("includeOrigin")
-        io_ok = const_value(io) is True
-        x_ok = is_self_attr(b.get("x0"), "_x0")
-        ok = t0_ok and tt_ok and io_ok and x_ok
-        why = "integrateFuncJac(x0=self._x0, t0=t[0], t=t[1:], includeOrigin=True)" if ok else \
-            "integrateFuncJac receives x0=%s t0=%s t=%s includeOrigin=%s" % (norm(b.get("x0")), norm(t0), norm(tt), norm(io))
-    res.check(ok, "R-GRID", i2, "ode-stepper-args", why, why + ": rows no longer line up with (t0, requested times)", node=i2.node)
-    # full_output handling: both return the solution first
-    for f in (i1, i2):
-        for r in C.returns_of(f):
-            el = C.tuple_elts(r.ast.value)[0]
-            res.check(is_self_attr(el, "_odeSolution"), "R-GRID", f, "returns-solution@%s" % norm(r.ast)[:40],
-                      "returns the stored solution", "returns %s instead of the solution" % norm(el), node=r.ast)
-
-
-def _prepends_t0(val):
-    if isinstance(val, ast.Call):
-        dn = dotted(val.func)
-        if dn in ("np.append", "numpy.append") and len(val.args) >= 2:
-            if is_self_attr(val.args[0], "_t0"):
-                return True, "grid = np.append(self._t0, requested)"
-            return False, "np.append(%s, %s) does not put the initial time first" % (norm(val.args[0]), norm(val.args[1]))
-        if dn in ("np.insert", "numpy.insert") and len(val.args) >= 3:
-            if const_value(val.args[1]) == 0 and is_self_attr(val.args[2], "_t0"):
-                return True, "grid = np.insert(requested, 0, self._t0)"
-            return False, "np.insert does not put the initial time first"
-        if dn in ("np.concatenate", "np.hstack", "np.r_") and val.args:
-            a = val.args[0]
-            if isinstance(a, (ast.Tuple, ast.List)) and a.elts and "_t0" in norm(a.elts[0]):
-                return True, "grid = concatenate((t0, requested))"
-    return False, "stored grid `%s` does not start with the initial time" % norm(val)
 
 
 # -------------------------------------------------------------------------- pairs
@@ -440,10 +175,19 @@ def _check_pairs(repo, res, integ):
                 res.functions.add(f.construct)
                 b = C.bind_args(c, ifj.params)
                 fn, jc = b.get("func"), b.get("jac")
+                df_ = dataflow_of(f)
+                if isinstance(fn, ast.Name):
+                    fn = df_.expand(fn, n)          # local alias of the callable (rhs = model.ode_T)
+                if isinstance(jc, ast.Name):
+                    jc = df_.expand(jc, n)
                 tag = "integrateFuncJac@%s" % norm(fn)[:40]
                 if not (isinstance(fn, ast.Attribute) and isinstance(jc, ast.Attribute)):
                     res.undecided("R-PAIRFJ", f, tag, "func/jac are not attribute references (%s, %s)" % (norm(fn), norm(jc)), node=c)
                     continue
+                if isinstance(fn.value, ast.Name):
+                    fn = ast.Attribute(value=df_.expand(fn.value, n), attr=fn.attr, ctx=ast.Load())    # model = self._ode
+                if isinstance(jc.value, ast.Name):
+                    jc = ast.Attribute(value=df_.expand(jc.value, n), attr=jc.attr, ctx=ast.Load())
                 same_recv = norm(fn.value) == norm(jc.value)
                 want = _jac_partner(fn.attr)
                 mf = repo.resolve_method(sim, fn.attr)
@@ -528,84 +272,3 @@ def _check_pairs(repo, res, integ):
     res.floor("time-first wrappers", n_w, 20)
 
 
-# -------------------------------------------------------------------------- table
-EXPECTED_INTEGRATORS = {
-    # name -> (scipy integrator, method kw or None, needs jacobian)
-    "dopri5": ("dopri5", None, False),
-    "dop853": ("dop853", None, False),
-    "vode": ("vode", (None, "adams"), True),
-    "ivode": ("vode", ("bdf",), True),
-    "lsoda": ("lsoda", None, True),
-}
-
-
-def _check_table(res, ifj, setup, choose):
-    cfg, df = cfg_of(setup), dataflow_of(setup)
-    mp = "method"
-    if mp not in setup.params:
-        raise AnalysisError("_setupIntegrator lost its method parameter")
-    handled = {}
-    default_branch = []
-    assigns = [n for n in cfg.stmt_nodes() if n.kind == "stmt" and isinstance(n.ast, ast.Assign)
-               and isinstance(n.ast.value, ast.Call) and "set_integrator" in norm(n.ast.value.func)]
-    for n in assigns:
-        gs = C.if_guards(cfg, n)
-        names = [const_value(t.ast.test.comparators[0]) for t, o in gs
-                 if o is True and isinstance(t.ast.test, ast.Compare) and norm(t.ast.test.left) == mp
-                 and isinstance(t.ast.test.ops[0], ast.Eq)]
-        if names:
-            handled[names[-1]] = n
-        else:
-            default_branch.append(n)
-    for name, (integ_name, meth, needs_jac) in EXPECTED_INTEGRATORS.items():
-        n = handled.get(name)
-        if n is None:
-            res.violated("R-TABLE", setup, "branch(%s)" % name, "method '%s' is not handled by an explicit branch" % name)
-            continue
-        call = n.ast.value
-        first = const_value(call.args[0]) if call.args else const_value(kwarg(call, "name"))
-        mk = const_value(kwarg(call, "method"))
-        mk_ok = (meth is None and mk is None) or (meth is not None and mk in meth)
-        ctor = call.func.value if isinstance(call.func, ast.Attribute) else None
-        ctor_ok = isinstance(ctor, ast.Call) and (dotted(ctor.func) or "").endswith("integrate.ode") and ctor.args \
-            and norm(ctor.args[0]) == setup.params[0] and (not needs_jac or (len(ctor.args) > 1 and norm(ctor.args[1]) == setup.params[1]))
-        tol_ok = norm(kwarg(call, "atol")) == "atol" and norm(kwarg(call, "rtol")) == "rtol" and norm(kwarg(call, "nsteps")) == "nsteps"
-        problems = []
-        if first != integ_name:
-            problems.append("sets up scipy integrator %r, expected %r" % (first, integ_name))
-        if not mk_ok:
-            problems.append("method=%r, expected one of %r" % (mk, meth))
-        if not ctor_ok:
-            problems.append("scipy.integrate.ode is not constructed from (func%s)" % (", jac" if needs_jac else ""))
-        if not tol_ok:
-            problems.append("atol/rtol/nsteps are not forwarded")
-        res.check(not problems, "R-TABLE", setup, "branch(%s)" % name, "'%s' -> %s%s" % (name, integ_name, "" if not mk else " method=%s" % mk),
-                  "method '%s': %s" % (name, "; ".join(problems)), node=n.ast)
-    # names returned by the chooser are handled
-    rets = set()
-    ccfg, cdf = cfg_of(choose), dataflow_of(choose)
-    for r in C.returns_of(choose):
-        v = r.ast.value
-        if isinstance(v, ast.Name):
-            for d in cdf.strong_defs(r, v.id):
-                rets.add(const_value(d.value))
-        else:
-            rets.add(const_value(v))
-    res.check(rets and rets <= set(handled), "R-TABLE", choose, "names-handled", "chooser returns %s, all handled explicitly" % sorted(map(str, rets)),
-              "chooser can return %s but the set-up chain only handles %s explicitly" % (sorted(map(str, rets)), sorted(handled)))
-    # default when method is None and no full output
-    dnode = [d for d in dataflow_of(ifj).defs if d.name == "method" and d.kind == "assign" and isinstance(d.value, ast.Constant)]
-    for d in dnode:
-        res.check(d.value.value in handled, "R-TABLE", ifj, "default-method", "default integrator '%s' is handled" % d.value.value,
-                  "default integrator %r is not handled explicitly" % d.value.value, node=d.stmt)
-    # initial value on every path, in (x0, t0) order
-    siv = [(n, c) for n, c, callee in C.calls(setup) if callee.endswith("set_initial_value")]
-    ok = bool(siv) and all(len(c.args) == 2 and norm(c.args[0]) == setup.params[2] and norm(c.args[1]) == setup.params[3] for n, c in siv) \
-        and cfg.must_pass_after(cfg.entry, [n for n, c in siv])
-    res.check(ok, "R-TABLE", setup, "initial-value", "set_initial_value(x0, t0) on every path",
-              "set_initial_value is not called with (x0, t0) on every path", node=siv[0][1] if siv else setup.node)
-    # integrateFuncJac hands (func, jac, x0, t0) to the set-up and restarts from (o1, deltaT)
-    for n, c, callee in C.calls_to(ifj, "_setupIntegrator"):
-        b = C.bind_args(c, setup.params)
-        res.check(norm(b.get("func")) == "func" and norm(b.get("jac")) == "jac", "R-TABLE", ifj, "setup-args@%s" % norm(b.get("x0")),
-                  "set-up receives the caller's func/jac", "set-up receives func=%s jac=%s" % (norm(b.get("func")), norm(b.get("jac"))), node=c)
